@@ -11,7 +11,14 @@ kept alive at once (nested loops, zip, random schedules): each must yield what i
 class has one feature with more than 1000 direct children, the last of which have children themselves.
 Further classes: lines WITHOUT an ID attribute (stored under '<featuretype>_<n>'), several of them byte-identical under one
 parent; files that mix both spellings of several parents (repeated keys / comma list) with either one in the majority;
-ids and Parent values that differ only in letter case, look numeric or consist of SQL wildcard characters.
+ids and Parent values that differ only in letter case, look numeric or consist of SQL wildcard characters; the verbose
+argument of create_db / FeatureDB.update (not given, False, True, 'debug'); update() adding a third level under stored
+features; process history (imports that failed half-way earlier in the same process, with the same ids and other Parent
+links; a second create_db running inside the transform of the judged one).
+
+Optional case fields (all replayable): "verboses" (one import per line order and value) or "verbose"; "split" (first k
+lines by create_db, the others by update); "prior" (specs of G.failing_prior, run before every judged import); "nested"
+(spec of G.nested_spec).
 """
 import os
 import random
@@ -44,7 +51,17 @@ RULE = ("GFF3 annotation graphs: DAGs of 1-4 layers and <= 12 lines, every line 
         "parents use one comma list (3 of 4 graphs; the inferred dialect, read from FeatureDB.dialect, is counted), or "
         "the reverse mixture.  'look-alike ids': 2-5 ids / dangling Parent values of related lines are renamed within one "
         "family: letter-case variants of one word, numeric-looking ('1', '01', '1.0', '1e0', ...), SQL wildcard strings ('%', "
-        "'_', 'a_', 'ab', 'a%', ...; '%' is written %25)")
+        "'_', 'a_', 'ab', 'a%', ...; '%' is written %25).  "
+        "'verbose': one graph, one line order, imported with verbose not given / False / True / 'debug' in a drawn sequence; all "
+        "relation sets must coincide and agree with the model.  'update': the lines of layers 0-1 by create_db and the lines of "
+        "layer >= 2 by FeatureDB.update (third level under existing features; 3 of 5), or any line order cut anywhere (random cut), "
+        "under each of the four verbose values (given to both calls).  'process history': before EACH judged import 1-2 imports "
+        "that fail half-way run in the same process - a file with the ids of the judged file and other Parent links (3 of 4) or "
+        "an unrelated file, spoiled behind >= 1 Parent-bearing line by a duplicate ID (merge_strategy='error'), a non-integer "
+        "start, an ID attribute with two values, a transform or an id_spec callable that raises at the k-th feature; through "
+        "create_db or FeatureDB.update, into ':memory:' or a file - and/or the judged import gets an identity transform that, at "
+        "a drawn feature, runs a second create_db into ':memory:' (same ids with other links, or unrelated; that inner database is "
+        "judged against ITS graph too); verbose drawn; 1 of 5 judged imports is create_db + update")
 REQUIRED = ["imports", "children()/parents() calls compared with the model", "relation rows compared",
             "level-2 rows compared", "argument-composition queries compared", "iter_by_parent_childs groups compared",
             "line-order pairs with identical relation sets", "dangling Parent values (no error, no phantom)",
@@ -65,14 +82,36 @@ REQUIRED = ["imports", "children()/parents() calls compared with the model", "re
             "mixed spelling: imports whose inferred dialect says 'repeated keys' with a comma-list Parent of >= 2 values",
             "mixed spelling: imports whose inferred dialect says no repeated keys with a Parent written as repeated keys",
             "mixed spelling: lines with a comma-list Parent and another attribute as repeated keys",
-            "look-alike ids: ids / Parent values renamed within one family"]
+            "look-alike ids: ids / Parent values renamed within one family",
+            "history: earlier imports in the same process that failed half-way",
+            "history: failed earlier imports that used the ids of the judged file with other Parent links",
+            "history: (Parent value, id) pairs read by failed earlier imports before they raised",
+            "history: imports judged right after a failed import in the same process",
+            "history: pairs read by a failed or nested import, both ids stored in the judged database, confirmed not related that way",
+            "history: earlier imports failed by: duplicate", "history: earlier imports failed by: start",
+            "history: earlier imports failed by: transform",
+            "nested: imports during which a transform ran a second create_db (two creators alive at once)",
+            "nested: inner databases compared with their own Parent graph",
+            "verbose: imports with verbose=False", "verbose: imports with verbose=True", "verbose: imports with verbose='debug'",
+            "verbose='debug': level-2 rows compared", "verbose=True: level-2 rows compared",
+            "verbose: pairs of imports (other verbose value) with identical relation sets",
+            "update: FeatureDB.update calls that added lines to a judged database",
+            "update: calls with verbose='debug'", "update: calls with verbose=True", "update: calls with verbose=False",
+            "update: lines of a third (or deeper) level added under existing features",
+            "update: level-2 pairs joining a feature of the create_db call with one of the update call"]
 REQUIRED_CLASSES = ["ids=word", "ids=hostile", "Parent=comma list", "Parent=repeated keys", "order=children first",
                     "graph: multi-parent", "graph: level-2 pairs", "graph: dangling Parent", "graph: shortcut (level 1 and 2)",
                     "graph: two level-2 paths to one feature", "graph: wide (> 1000 direct children)",
                     "lines without ID attribute", "lines without ID attribute: byte-identical lines",
                     "lines without ID attribute: byte-identical lines with >= 2 parents",
                     "mixed spelling: majority repeat", "mixed spelling: majority comma", "ids=confusable",
-                    "confusable ids: letter case", "confusable ids: numeric-looking", "confusable ids: SQL wildcard"]
+                    "confusable ids: letter case", "confusable ids: numeric-looking", "confusable ids: SQL wildcard",
+                    "verbose: one file under all four values (not given / False / True / 'debug')",
+                    "update: third level", "update: random cut",
+                    "history: after a failed import of a file with the same ids and other Parent links",
+                    "history: after a failed import of an unrelated file",
+                    "history: a transform runs a second create_db (two creators alive at once)",
+                    "history: judged import = create_db + FeatureDB.update"]
 ASSUMPTIONS = [
     "the reference model gvmon/models/hierarchy.py is a faithful reading of the statement: relatives are stored features "
     "only; level 2 = composition of two Parent edges; level None = union",
@@ -94,6 +133,15 @@ ASSUMPTIONS = [
     "Parent=a,b and Parent=a;Parent=b name the same two parents whatever spelling the rest of the file uses",
     "ids are compared as exact strings (letter case, leading zeros, '%' and '_' are ordinary characters)",
     "Parent lists do not repeat a value; graphs are acyclic",
+    "the verbose argument (not given, False, True, 'debug') only controls logging: the relations are the same under all of them",
+    "lines added by FeatureDB.update(make_backup=False) are GFF3 input like the lines given to create_db: after the call every "
+    "stored feature's relatives are the Parent graph of all lines imported so far (new ids only, default merge_strategy, no "
+    "id-less lines; other update()/delete() histories are C10's)",
+    "an import that raised earlier in the same process, for whatever database, is no input of the import judged next: the "
+    "judged database is the Parent graph of ITS lines only.  Nothing is demanded of the failed import itself (a spoiled import "
+    "that does not raise is counted and ignored)",
+    "an identity transform (returns the feature it was given) does not change the input; a create_db call made from inside it "
+    "for another ':memory:' database is an independent import: both databases are the Parent graphs of their own files",
     "interleaved generators: the database is not modified while they are alive; each generator is compared as a multiset "
     "with the same call consumed alone (the statement fixes no order without order_by) and with the model",
 ]
@@ -147,36 +195,169 @@ def model_of(nodes):
     return H.Relatives(visible, [n["id"] for n in nodes]), lower, upper
 
 
+def runs_of(case):
+    """(order index, line order, verbose value) of every judged import of a case."""
+    orders = orders_of(case)
+    vs = case.get("verboses") or [case.get("verbose", "absent")]
+    return [(oi, order, v) for oi, order in enumerate(orders) for v in vs]
+
+
 def execute(ctx, case):
     g = graph_of(case)
     idless = any(n.get("noid") for n in g["nodes"])
     model = None if idless else model_of(g["nodes"])
     first = None
-    for oi, order in enumerate(orders_of(case)):
+    for oi, order, verbose in runs_of(case):
         # lines without an ID attribute: the stored ids, hence the model, depend on the line order
         nodes = H.resolve_ids(g["nodes"], order)
         rel, lower, upper = model or model_of(nodes)
-        table = one_import(ctx, case, oi, order, nodes, rel, lower, upper)
+        table = one_import(ctx, case, oi, order, nodes, rel, lower, upper, verbose)
         order = shown(case, oi, order, "")[0]
         for v in contracts.drain():
             ctx.violation(case, dict(v, why=tag(case) + "contract: " + str(v.get("why"))))
         if table is None:
             return
         if first is None:
-            first = (order, table)
+            first = (order, table, verbose)
         elif table != first[1]:
-            ctx.violation(case, {"why": tag(case) + "the relation set depends on the order of the lines",
-                                 "order_a": first[0], "order_b": order,
+            what = "the verbose argument" if order == first[0] else "the order of the lines"
+            ctx.violation(case, {"why": tag(case) + "the relation set depends on " + what,
+                                 "order_a": first[0], "order_b": order, "verbose_a": first[2], "verbose_b": verbose,
+                                 "split": case.get("split"),
                                  "only_a": sorted(set(first[1]) - set(table))[:10], "only_b": sorted(set(table) - set(first[1]))[:10],
                                  "text_a": None if case["kind"] == "wide" else G.text_of(g, first[0]),
                                  "text_b": None if case["kind"] == "wide" else G.text_of(g, order)})
             return
         else:
-            ctx.mon("line-order pairs with identical relation sets")
+            if order != first[0]:
+                ctx.mon("line-order pairs with identical relation sets")
+            if verbose != first[2]:
+                ctx.mon("verbose: pairs of imports (other verbose value) with identical relation sets")
 
 
-def one_import(ctx, case, oi, order, nodes, rel, lower, upper):
-    """Import one line order (nodes: the graph's nodes with the ids of this order); returns the relation rows read from
+class _Noting(object):
+    """ctx whose violations also say under which verbose value / history / split the import ran."""
+
+    def __init__(self, ctx, extra):
+        self._ctx, self._extra = ctx, extra
+
+    def violation(self, case, detail):
+        return self._ctx.violation(case, dict(self._extra, **detail))
+
+    def __getattr__(self, name):
+        return getattr(self._ctx, name)
+
+
+class _Spoiled(Exception):
+    """Raised by the callables of a spoiled earlier import."""
+
+
+def _sweep_tempdir(ctx):
+    # from_string=True: gffutils leaves its own copy of the string in the temp directory (C20's F-C20-1)
+    tdir = tempfile.gettempdir()
+    if tdir.startswith(ctx.scratch):
+        for name in os.listdir(tdir):
+            try:
+                os.unlink(os.path.join(tdir, name))
+            except OSError:
+                pass
+
+
+def run_prior(ctx, spec):
+    """One earlier import of the process history that is built to FAIL half-way (see G.failing_prior).  Nothing of it is
+    judged; what it did is counted.  Returns True when it raised."""
+    import gffutils
+
+    seen = [0]
+
+    def counting(inner):
+        def fn(f):
+            if seen[0] == spec["at"]:
+                raise _Spoiled("callable of the earlier import raises at feature number %d" % spec["at"])
+            seen[0] += 1
+            return inner(f)
+        return fn
+
+    kw = {"checklines": spec["checklines"]}
+    if spec["fail"] == "transform":
+        kw["transform"] = counting(lambda f: f)
+    elif spec["fail"] == "id_spec":
+        kw["id_spec"] = counting(lambda f: f.attributes["ID"][0])
+    src = None
+    dbfn = ":memory:" if spec["db"] == "memory" else ctx.tmp(".db")
+    if spec["input"] == "path":
+        src = ctx.tmp(".gff3")
+        with open(src, "w", encoding="utf-8", newline="") as fh:
+            fh.write(spec["text"])
+    data, from_string = (src, False) if src else (spec["text"], True)
+    old = None
+    raised = False
+    try:
+        if spec["via"] == "update":
+            old = gffutils.create_db("chrZ\tsrc\tregion\t1\t2\t.\t+\t.\tID=__old__\n", dbfn, from_string=True)
+            old.update(data, from_string=from_string, make_backup=False, **kw)
+        else:
+            old = gffutils.create_db(data, dbfn, from_string=from_string, **kw)
+    except Exception:
+        raised = True
+    finally:
+        if old is not None:
+            try:
+                old.conn.close()
+            except Exception:
+                pass
+        for p in (src, dbfn, dbfn + ".bak"):
+            if p and p != ":memory:" and os.path.exists(p):
+                os.unlink(p)
+    if not raised:
+        ctx.mon("history: spoiled earlier imports that did not raise (nothing demanded)")
+        return False
+    ctx.mon("history: earlier imports in the same process that failed half-way")
+    ctx.mon("history: earlier imports failed by: " + spec["fail"])
+    if spec["via"] == "update":
+        ctx.mon("history: earlier imports that failed inside FeatureDB.update")
+    if spec["same_ids"]:
+        ctx.mon("history: failed earlier imports that used the ids of the judged file with other Parent links")
+    ctx.mon("history: (Parent value, id) pairs read by failed earlier imports before they raised", len(spec["pairs"]))
+    return True
+
+
+def judge_nested(ctx, case, ndb, g2, info):
+    """The database built by the import that ran inside the judged one: exactly the Parent graph of ITS file."""
+    nodes = g2["nodes"]
+    rel, lower, upper = model_of(nodes)
+    dump = dbdump.dump_db(ndb)
+    got_ids = sorted(f["id"] for f in dump["features"])
+    want_ids = sorted(n["id"] for n in nodes)
+    rows = [tuple(r) for r in dump["relations"]]
+    table = set(rows)
+    T = tag(case) + "import run from the transform of another import: "
+    if got_ids != want_ids:
+        ctx.violation(case, dict(info, why=T + "stored features differ from its lines", got=got_ids, expected=want_ids))
+        return False
+    if len(rows) != len(table) or not (lower <= table <= upper):
+        ctx.violation(case, dict(info, why=T + "relations table differs from L1 u L2 of ITS Parent graph",
+                                 missing=sorted(lower - table)[:12], unexpected=sorted(table - upper)[:12],
+                                 nested_text=G.text_of(g2, range(len(nodes)))))
+        return False
+    ctx.mon("relation rows compared", len(rows))
+    for x in want_ids:
+        for level in LEVELS:
+            for name, fn, model in (("children", ndb.children, rel.children), ("parents", ndb.parents, rel.parents)):
+                ids = sorted(f.id for f in fn(x, level=level))
+                ctx.mon("children()/parents() calls compared with the model")
+                if ids != sorted(model(x, level)):
+                    ctx.violation(case, dict(info, why=T + "%s(x, level=%r) differs from ITS Parent graph" % (name, level), x=x,
+                                             got=ids, expected=sorted(model(x, level)), nested_text=G.text_of(g2, range(len(nodes)))))
+                    return False
+    ctx.mon("nested: inner databases compared with their own Parent graph")
+    return True
+
+
+def one_import(ctx, case, oi, order, nodes, rel, lower, upper, verbose="absent"):
+    """Import one line order (nodes: the graph's nodes with the ids of this order) after the earlier imports of
+    case["prior"], with the given verbose value, the last len(order) - case["split"] lines through FeatureDB.update, and
+    possibly a second import running inside (case["nested"]); returns the relation rows read from
     the table (sorted; the ids of id-less lines replaced by the text of their line), or None after a violation."""
     import gffutils
 
@@ -190,24 +371,101 @@ def one_import(ctx, case, oi, order, nodes, rel, lower, upper):
     minority = mixed_minority(nodes)
     full_order = order
     T = tag(case)
-    src = None
+    src = src2 = nsrc = None
+    split = case.get("split")
+    nested = case.get("nested")
+    used_string = nested is not None and nested["input"] == "string"
+    failed_before = 0
+    for spec in case.get("prior") or ():
+        used_string = used_string or spec["input"] == "string" or spec["via"] == "update"
+        failed_before += run_prior(ctx, spec)
     dbfn = ":memory:" if case.get("db", "memory") == "memory" else ctx.tmp(".db")
+    text_a = text if split is None else G.text_of(g, order[:split])
+    text_b = None if split is None else G.text_of(g, order[split:])
     if case.get("input", "path") == "path":
         src = ctx.tmp(".gff3")
         with open(src, "w", encoding="utf-8", newline="") as fh:
-            fh.write(text)
+            fh.write(text_a)
         data, from_string = src, False
+        if text_b is not None:
+            src2 = ctx.tmp(".gff3")
+            with open(src2, "w", encoding="utf-8", newline="") as fh:
+                fh.write(text_b)
+        data2 = src2
     else:
-        data, from_string = text, True
+        data, from_string = text_a, True
+        data2 = text_b
+        used_string = True
+    kw = {} if verbose == "absent" else {"verbose": verbose}
+    inner = {"calls": 0, "db": None, "error": None, "fired": False}
+    if nested is not None:
+        inner_text = G.text_of(nested["graph"], range(len(nested["graph"]["nodes"])))
+        if nested["input"] == "path":
+            nsrc = ctx.tmp(".gff3")
+            with open(nsrc, "w", encoding="utf-8", newline="") as fh:
+                fh.write(inner_text)
+
+        def transform(f):
+            if inner["calls"] == nested["at"] and not inner["fired"]:
+                inner["fired"] = True
+                try:
+                    inner["db"] = gffutils.create_db(nsrc or inner_text, ":memory:", from_string=nsrc is None)
+                except Exception as ex:
+                    inner["error"] = ex
+            inner["calls"] += 1
+            return f
+        kw["transform"] = transform
     order, text = shown(case, oi, order, text)   # from here on: what is written into violation details
+    info = {"order": order, "text": text}
+    if verbose != "absent":
+        info["verbose"] = verbose
+    if split is not None:
+        info["split"] = "the first %d lines by create_db, the others by FeatureDB.update" % split
+    if case.get("prior"):
+        info["history"] = "after %d import(s) built to fail half-way (case['prior'])" % len(case["prior"])
+    if nested is not None:
+        info["nested"] = "a transform ran a second create_db at feature number %d (case['nested'])" % nested["at"]
+    if len(info) > 2:
+        ctx = _Noting(ctx, {k: v for k, v in info.items() if k not in ("order", "text")})
     sqltrace.reset()
     db = None
     try:
         try:
-            db = gffutils.create_db(data, dbfn, from_string=from_string)
+            db = gffutils.create_db(data, dbfn, from_string=from_string, **kw)
         except Exception as ex:
-            ctx.violation(case, {"why": T + "create_db raised %s" % type(ex).__name__, "error": repr(ex), "order": order, "text": text})
+            ctx.violation(case, dict(info, why=T + "create_db raised %s" % type(ex).__name__, error=repr(ex)))
             return None
+        if split is not None:
+            try:
+                db.update(data2, from_string=from_string, make_backup=False, **kw)
+            except Exception as ex:
+                ctx.violation(case, dict(info, why=T + "FeatureDB.update raised %s" % type(ex).__name__, error=repr(ex)))
+                return None
+            ctx.mon("update: FeatureDB.update calls that added lines to a judged database")
+            ctx.mon("update: calls with verbose=%r" % (verbose,))
+            late = {nodes[i]["id"] for i in full_order[split:]}
+            early = {nodes[i]["id"] for i in full_order[:split]}
+            ctx.mon("update: level-2 pairs joining a feature of the create_db call with one of the update call",
+                    sum(1 for p, c, lv in lower if lv == 2 and ((p in early and c in late) or (p in late and c in early))))
+            if case.get("klass") == "update" and case.get("how") == "third level":
+                ctx.mon("update: lines of a third (or deeper) level added under existing features", len(late))
+        if failed_before:
+            ctx.mon("history: imports judged right after a failed import in the same process")
+            if split is not None:
+                ctx.mon("history: create_db + FeatureDB.update judged right after a failed import")
+        ctx.mon("verbose: imports with verbose=%r" % (verbose,) if verbose != "absent" else "verbose: imports without the argument")
+        if nested is not None:
+            if inner["error"] is not None:
+                ctx.violation(case, dict(info, why=T + "create_db run from the transform of another import raised %s"
+                                         % type(inner["error"]).__name__, error=repr(inner["error"]), nested_text=inner_text))
+                return None
+            if inner["db"] is None:
+                raise AssertionError("harness: the transform never ran the nested import")
+            ctx.mon("nested: imports during which a transform ran a second create_db (two creators alive at once)")
+            if nested["same_ids"]:
+                ctx.mon("nested: inner files using the ids of the outer file with other Parent links")
+            if not judge_nested(ctx, case, inner["db"], nested["graph"], info):
+                return None
         ctx.mon("imports")
         if anon:
             ctx.mon("id-less: imports with lines that have no ID attribute")
@@ -237,6 +495,8 @@ def one_import(ctx, case, oi, order, nodes, rel, lower, upper):
         table = set(rows)
         ctx.mon("relation rows compared", len(rows))
         ctx.mon("level-2 rows compared", sum(1 for r in rows if r[2] == 2))
+        if verbose != "absent":
+            ctx.mon("verbose=%r: level-2 rows compared" % (verbose,), sum(1 for r in rows if r[2] == 2))
         if len(rows) != len(table) or not (lower <= table <= upper):
             ctx.violation(case, {"why": T + "relations table differs from L1 u L2 of the Parent graph",
                                  "missing": sorted(lower - table)[:12], "unexpected": sorted(table - upper)[:12],
@@ -244,6 +504,12 @@ def one_import(ctx, case, oi, order, nodes, rel, lower, upper):
             return None
         dangling = {p for p, c, lv in lower if p not in byid}
         ctx.mon("dangling Parent values (no error, no phantom)", len(dangling))
+        # pairs a failed / nested import read under the same ids: both ends stored here, not related that way here
+        foreign = [tuple(pc) for spec in case.get("prior") or () for pc in spec["pairs"]]
+        if nested is not None:
+            foreign += sorted(H.parent_edges(nested["graph"]["nodes"]))
+        ctx.mon("history: pairs read by a failed or nested import, both ids stored in the judged database, confirmed not related that way",
+                sum(1 for p, c in set(foreign) if p in byid and c in byid and (p, c, 1) not in upper and (p, c, 1) not in table))
         # -- children()/parents() for every stored feature and level ----------------------------------------
         q = random.Random(case["qseed"] * 1009 + oi)
         late2 = {}   # feature with > 1000 direct children -> level-2 relatives through its children number >= 1000
@@ -331,23 +597,17 @@ def one_import(ctx, case, oi, order, nodes, rel, lower, upper):
                 sum(1 for _, s in sqltrace.LOG if "JOIN relations" in s and "DISTINCT" in s))
         return tuple(sorted((anon.get(p, p), anon.get(c, c), lv) for p, c, lv in table))
     finally:
-        if db is not None:
-            try:
-                db.conn.close()
-            except Exception:
-                pass
-        for p in (src, dbfn):
+        for d in (db, inner["db"]):
+            if d is not None:
+                try:
+                    d.conn.close()
+                except Exception:
+                    pass
+        for p in (src, src2, nsrc, dbfn):
             if p and p != ":memory:" and os.path.exists(p):
                 os.unlink(p)
-        if src is None:
-            # from_string=True: gffutils leaves its own copy of the string in the temp directory (C20's F-C20-1)
-            tdir = tempfile.gettempdir()
-            if tdir.startswith(ctx.scratch):
-                for name in os.listdir(tdir):
-                    try:
-                        os.unlink(os.path.join(tdir, name))
-                    except OSError:
-                        pass
+        if used_string:
+            _sweep_tempdir(ctx)
 
 
 def mixed_minority(nodes):
@@ -583,6 +843,21 @@ def classify(ctx, case):
     if klass == "confusable":
         ctx.classes["confusable ids: " + case["family"]] += 1
         return True
+    if klass == "verbose":
+        ctx.classes["verbose: one file under all four values (not given / False / True / 'debug')"] += 1
+        return lvl2
+    if klass == "update":
+        ctx.classes["update: " + case["how"]] += 1
+        return lvl2
+    if klass == "history":
+        for spec in case.get("prior") or ():
+            ctx.classes["history: after an import failed by: " + spec["fail"]] += 1
+            ctx.classes["history: after a failed import" + (" of a file with the same ids and other Parent links" if spec["same_ids"] else " of an unrelated file")] += 1
+        if case.get("nested"):
+            ctx.classes["history: a transform runs a second create_db (two creators alive at once)"] += 1
+        if case.get("split") is not None:
+            ctx.classes["history: judged import = create_db + FeatureDB.update"] += 1
+        return True
     return multi or lvl2 or dang
 
 
@@ -604,8 +879,21 @@ def account(ctx, case):
     klass = case.get("klass")
     cls = {None: "line orders imported", "idless": "line orders imported (lines without ID attribute)",
            "mixed": "line orders imported (mixed spelling of several parents)",
-           "confusable": "line orders imported (look-alike ids)"}[klass]
+           "confusable": "line orders imported (look-alike ids)",
+           "verbose": "imports (line order x verbose value)",
+           "update": "imports (line order x verbose value; create_db + FeatureDB.update)",
+           "history": "imports judged after a failed import / around a nested import"}[klass]
     extra = G.spelling(g) if klass == "mixed" else None
+    if klass in ("verbose", "update", "history"):
+        # the process history is part of what makes the case distinct
+        hist = [[sp["fail"], sp["text"], sp["at"], sp["via"]] for sp in case.get("prior") or ()]
+        if case.get("nested"):
+            hist.append(["nested", G.text_of(case["nested"]["graph"], range(len(case["nested"]["graph"]["nodes"]))), case["nested"]["at"]])
+        for oi, order, verbose in runs_of(case):
+            ctx.case((canon, order, case["ids"], repr(verbose), case.get("split"), repr(hist)), nontrivial, cls=cls,
+                     sample={"verbose": verbose, "split": case.get("split"), "order": order, "text": G.text_of(g, order)[:500],
+                             "history": [h[:3] for h in hist]})
+        return
     for order in orders_of(case):
         if children_first(g["nodes"], order):
             ctx.classes["order=children first"] += 1
@@ -705,6 +993,68 @@ def run(ctx):
         ctx.mon("look-alike ids: ids / Parent values renamed within one family", fam[1])
         execute(ctx, case)
         account(ctx, case)
+    # 6. the verbose argument: one file, one line order (parents first / children first / random), all four values (in a drawn sequence: the logger level is global)
+    for _ in range(ctx.budget(60, 1200)):
+        g = G.graph(rng)
+        n = len(g["nodes"])
+        verboses = list(G.VERBOSES)
+        rng.shuffle(verboses)
+        case = {"kind": "graph", "klass": "verbose", "ids": "word", "graph": g, "qseed": rng.randrange(10 ** 9),
+                "orders": [rng.choice(G.sample_orders(rng, n, 3))], "verboses": verboses, "nqueries": 2,
+                "db": "file" if rng.random() < 0.15 else "memory", "input": "string" if rng.random() < 0.15 else "path"}
+        execute(ctx, case)
+        account(ctx, case)
+    # 7. FeatureDB.update under every verbose value: the lines of layer >= 2 are added under the stored layers 0-1
+    #    ("third level"), or the file is cut anywhere in any order ("random cut")
+    for i in range(ctx.budget(80, 1600)):
+        g = G.graph(rng)
+        for _ in range(6):
+            if i % 5 >= 2 and G.third_level_split(g) is None:
+                g = G.graph(rng)
+        n = len(g["nodes"])
+        if n < 2:
+            ctx.mon("generator: single-line graphs (nothing to add by update; not imported)")
+            continue
+        k = G.third_level_split(g) if i % 5 >= 2 else None
+        if k is not None:
+            head, tail = list(range(k)), list(range(k, n))
+            rng.shuffle(head)
+            rng.shuffle(tail)
+            order, how = head + tail, "third level"
+        else:
+            order = list(range(n))
+            rng.shuffle(order)
+            k, how = rng.randrange(1, n), "random cut"
+        verboses = list(G.VERBOSES)
+        rng.shuffle(verboses)
+        case = {"kind": "graph", "klass": "update", "how": how, "ids": "word", "graph": g, "qseed": rng.randrange(10 ** 9),
+                "orders": [order], "split": k, "verboses": verboses, "nqueries": 2,
+                "db": "file" if rng.random() < 0.15 else "memory", "input": "string" if rng.random() < 0.15 else "path"}
+        execute(ctx, case)
+        account(ctx, case)
+    # 8. process history: the judged import follows imports that failed half-way / has a second import running inside
+    for i in range(ctx.budget(110, 2200)):
+        g = G.graph(rng)
+        n = len(g["nodes"])
+        if n < 2:
+            continue
+        case = {"kind": "graph", "klass": "history", "ids": "word", "graph": g, "qseed": rng.randrange(10 ** 9),
+                "orders": G.sample_orders(rng, n, 2), "verbose": rng.choice(G.VERBOSES), "nqueries": 2,
+                "db": "file" if rng.random() < 0.15 else "memory", "input": "string" if rng.random() < 0.15 else "path"}
+        if i % 3 != 2:
+            prior = [G.failing_prior(rng, g) for _ in range(rng.choice([1, 1, 2]))]
+            case["prior"] = [sp for sp in prior if sp]
+        if i % 3 == 2 or rng.random() < 0.15:
+            case["nested"] = G.nested_spec(rng, g)
+        if not case.get("prior") and not case.get("nested"):
+            ctx.mon("generator: no failing file could be made (not imported)")
+            continue
+        if rng.random() < 0.2:
+            order = list(range(n))
+            rng.shuffle(order)
+            case.update(orders=[order], split=rng.randrange(1, n))
+        execute(ctx, case)
+        account(ctx, case)
     ctx.mon("make_query contract evaluations", contracts.EVALS["helpers.make_query"])
 
 
@@ -723,7 +1073,14 @@ MANIFEST = {
             "(stored under '<featuretype>_<n>'), several byte-identical under the same parents - each is a stored feature and "
             "must come back once at every level; files mixing repeated-key and comma-list spelling of several parents with "
             "either one deciding the inferred dialect; ids that differ only in letter case, look numeric or are made of SQL "
-            "wildcard characters. Held = no executed import disagreed.",
+            "wildcard characters. Three classes vary the circumstances rather than the file: each file is imported with verbose not "
+            "given / False / True / 'debug' (identical relations demanded); the deeper layers are added by FeatureDB.update under "
+            "each verbose value; and the judged import runs right after one or two imports that were built to fail half-way in the "
+            "same process (duplicate ID, malformed line, raising transform / id_spec; mostly the SAME ids with other Parent links) or "
+            "with a second create_db running inside its transform - the judged database (and the inner one) must be exactly the "
+            "Parent graph of its own file, and the pairs the failed import had read are counted as confirmed absent. "
+            "Held = no executed import disagreed.",
     "note": "Trusted: gvmon/models/hierarchy.py. The hostile-id class (blanks at the ends, U+0085/U+00A0, escaped TAB/LF) is "
-            "kept apart: its violations are prefixed 'hostile-id class:'. update()/delete() histories are C10's.",
+            "kept apart: its violations are prefixed 'hostile-id class:'. update() is exercised only as 'more GFF3 lines with new ids'; "
+            "other update()/delete() histories are C10's. Threads are not used (two creators overlap only through a transform).",
 }
